@@ -223,3 +223,98 @@ func repairOptimizerShapes(g *ast.Grammar) {
 		}
 	}
 }
+
+// repairDoubleInlining avoids D5 for grammars whose labels are all unique:
+// -optimize-grammar replaces a reference to a rule by a copy of the rule's
+// expression, and the labels in the top scope of that expression then belong
+// to the scope of the referencing site. Two references to the same rule from
+// one scope give a duplicate parameter name. Every reference to a rule that
+// (transitively, through references in its own top scope) exposes a label
+// and that is referenced more than once is wrapped in a labeled expression,
+// whose body is a scope of its own.
+func repairDoubleInlining(g *ast.Grammar) {
+	rules := map[string]*ast.Rule{}
+	refs := map[string]int{}
+	for _, r := range g.Rules {
+		rules[r.Name.Val] = r
+	}
+	for _, r := range g.Rules {
+		WalkExpr(r.Expr, func(e ast.Expression) {
+			if x, ok := e.(*ast.RuleRefExpr); ok {
+				refs[x.Name.Val]++
+			}
+		})
+	}
+	exposes := map[string]bool{}
+	var top func(e ast.Expression) bool // a label (or an exposing reference) in the current scope
+	top = func(e ast.Expression) bool {
+		switch e := e.(type) {
+		case *ast.LabeledExpr:
+			return true
+		case *ast.SeqExpr:
+			for _, x := range e.Exprs {
+				if top(x) {
+					return true
+				}
+			}
+		case *ast.ActionExpr:
+			return top(e.Expr)
+		case *ast.RuleRefExpr:
+			return exposes[e.Name.Val]
+		}
+		return false
+	}
+	for changed := true; changed; {
+		changed = false
+		for _, r := range g.Rules {
+			if !exposes[r.Name.Val] && top(r.Expr) {
+				exposes[r.Name.Val] = true
+				changed = true
+			}
+		}
+	}
+	n := 0
+	var fix func(e ast.Expression) ast.Expression
+	fix = func(e ast.Expression) ast.Expression {
+		switch e := e.(type) {
+		case *ast.RuleRefExpr:
+			if exposes[e.Name.Val] && refs[e.Name.Val] > 1 {
+				n++
+				l := ast.NewLabeledExpr(ast.Pos{})
+				l.Label = ast.NewIdentifier(ast.Pos{}, "lw"+strconv.Itoa(n)+"_")
+				l.Expr = e
+				return l
+			}
+		case *ast.ChoiceExpr:
+			for i := range e.Alternatives {
+				e.Alternatives[i] = fix(e.Alternatives[i])
+			}
+		case *ast.SeqExpr:
+			for i := range e.Exprs {
+				e.Exprs[i] = fix(e.Exprs[i])
+			}
+		case *ast.RecoveryExpr:
+			e.Expr, e.RecoverExpr = fix(e.Expr), fix(e.RecoverExpr)
+		case *ast.ActionExpr:
+			e.Expr = fix(e.Expr)
+		case *ast.LabeledExpr:
+			if _, ok := e.Expr.(*ast.RuleRefExpr); !ok {
+				e.Expr = fix(e.Expr)
+			}
+		case *ast.AndExpr:
+			e.Expr = fix(e.Expr)
+		case *ast.NotExpr:
+			e.Expr = fix(e.Expr)
+		case *ast.ZeroOrOneExpr:
+			e.Expr = fix(e.Expr)
+		case *ast.ZeroOrMoreExpr:
+			e.Expr = fix(e.Expr)
+		case *ast.OneOrMoreExpr:
+			e.Expr = fix(e.Expr)
+		}
+		return e
+	}
+	for _, r := range g.Rules {
+		r.Expr = fix(r.Expr)
+	}
+}
